@@ -38,7 +38,7 @@ REQUIRED = ["op:overlap", "op:contains", "op:distance_ring", "op:distance_line",
             "op:connect_line", "op:offset_ring", "op:offset_line", "op:extend_ring", "op:extend_line",
             "op:roundtrip_string", "op:bridges", "op:make_forwards", "op:remove_redundant",
             "op:build_from_others", "op:lt", "class:build-from-compound-operands",
-            "class:connect-single-multi-part-location"]
+            "class:connect-single-multi-part-location", "op:extend_frameshift"]
 
 
 def _s(loc) -> str:
@@ -594,6 +594,26 @@ def overlapping_exon_cases(ctx, count):
         if len(loc.parts) > 1:
             ctx.case(("exons", _s(loc)), nontrivial=True)
             oracle_remove_redundant(ctx, loc)
+        # a gene with a programmed frameshift: two exons sharing one or two bases; extended, it covers the stretch from
+        # its first to its last base plus the distance on both sides
+        s = rng.randrange(0, length - 8)
+        m = rng.randrange(s + 3, length - 3)
+        e = rng.randrange(m + 2, length + 1)
+        shift = G.mk([(s, m + rng.choice([1, 2])), (m, e)], strand)
+        distance = rng.choice([0, 1, 3, rng.randrange(0, length)])
+        for circular in (False, True):
+            rec = _SizedRecord(length, circular)
+            fcase = {"op": "extend-frameshift", "loc": _s(shift), "distance": distance, "L": length, "circular": circular}
+            ok, res = _call(ctx, "extend-crash", fcase, rec.extend_location, shift, distance)
+            if ok:
+                ctx.count("op:extend_frameshift")
+                whole = (s, e)
+                expected = ring.normalise([whole] + ring.extend_intervals(whole, whole, distance, length, circular))
+                got = ring.normalise(ring.parts_of(res))
+                if got != expected:
+                    ctx.violate("extend-exact-bases", _facts(length, shift, distance=distance, circular=circular,
+                                                             result=_s(res), expected=expected, parts=2,
+                                                             exons_share_bases=True), fcase)
         # contiguous / gapped pieces for build_location_from_others
         cuts = sorted(rng.sample(range(0, length + 1), rng.randrange(2, 7)))
         pieces = []
